@@ -373,6 +373,16 @@ pub fn main(args: &[String]) {
     if !quick {
         bases.extend([(2, vec![25, 30, 35, 40, 45, 50, 55, 60], 5), (8, vec![50, 50, 50], 12289), (4, vec![18, 60, 19, 59, 20, 58], 97), (4, vec![60, 59, 58, 57, 56], 17), (8, vec![40], 17)]);
     }
+    // primes = 1 mod lcm(2n, t) (the usual BGV recommendation: q_last^-1 = 1 mod t) and a power-of-two plain modulus dividing 2n
+    if let Ok(ps) = guarded(|| heathcliff::util::get_primes(2 * 8 * 17, 40, 3)) {
+        let q: Vec<u64> = ps.iter().map(|m| m.value()).collect();
+        tools(8, &q, 17, &mut rng, if quick { 2 } else { 6 });
+    }
+    if let Ok(ms) = guarded(|| CoeffModulus::create(8, vec![40, 30, 40])) {
+        let q: Vec<u64> = ms.iter().map(|m| m.value()).collect();
+        tools(8, &q, 16, &mut rng, if quick { 2 } else { 6 });
+        tools(8, &q, 2, &mut rng, 1);
+    }
     for (n, bits, t) in bases {
         if let Ok(ms) = guarded(|| CoeffModulus::create(n, bits.clone())) {
             let q: Vec<u64> = ms.iter().map(|m| m.value()).collect();
